@@ -25,36 +25,36 @@ def gray2alt_body(g):
     assert outcome(PC.gray2alt, g) == outcome(CS.gray2alt, g), "gray2alt == Gillham 500ft Gray + reflected 100ft code"
 
 
-@harness("C07", inputs={"code": BinStr(13)}, functions=[P + "altitude"], body_of=[P + "altitude"])
+@harness(("C07", "C14"), inputs={"code": BinStr(13)}, functions=[P + "altitude"], body_of=[P + "altitude"])
 def altitude_body(code):
     assert outcome(PC.altitude, code) == outcome(alt_spec.alt13, code), "altitude == Annex 10 alt13 for all 8192 codes"
 
 
-@harness("C07", inputs={"code": BinStr((0, 12, 14))}, functions=[P + "altitude"], body_of=[P + "altitude"])
+@harness(("C07", "C14"), inputs={"code": BinStr((0, 12, 14))}, functions=[P + "altitude"], body_of=[P + "altitude"])
 def altitude_wrong_length(code):
     assert outcome(PC.altitude, code) == ("raise", "RuntimeError"), "altitude rejects strings that are not 13 bits"
 
 
-@harness("C07", inputs={"msg": HexStr((14, 28))}, functions=[P + "altcode"], body_of=[P + "altcode"])
+@harness(("C07", "C14"), inputs={"msg": HexStr((14, 28))}, functions=[P + "altcode"], body_of=[P + "altcode"])
 def altcode_body(msg):
     assert outcome(PC.altcode, msg) == outcome(CS.altcode, msg), "altcode == alt13(bits 20-32) for DF0/4/16/20, RuntimeError otherwise"
 
 
-@harness("C07", inputs={"msg": HexStr(28)}, functions=["pyModeS.decoder.bds.bds05.altitude"],
+@harness(("C07", "C14"), inputs={"msg": HexStr(28)}, functions=["pyModeS.decoder.bds.bds05.altitude"],
          body_of=["pyModeS.decoder.bds.bds05.altitude"])
 def altitude05_body(msg):
     assert outcome(BDS05.altitude, msg) == outcome(adsb_spec.altitude05, msg), \
         "bds05.altitude == alt12(ME 9-20) for TC9-18, GNSS metres*3.28084 for TC20-22, RuntimeError otherwise"
 
 
-@harness("C07", inputs={"msg": HexStr(28)}, functions=["pyModeS.decoder.adsb.altitude"],
+@harness(("C07", "C14"), inputs={"msg": HexStr(28)}, functions=["pyModeS.decoder.adsb.altitude"],
          body_of=["pyModeS.decoder.adsb.altitude"])
 def adsb_altitude_body(msg):
     assert outcome(ADSB.altitude, msg) == outcome(adsb_spec.altitude, msg), \
         "adsb.altitude == 0 for TC5-8, bds05.altitude for TC9-18/20-22, RuntimeError otherwise"
 
 
-@harness("C07", inputs={"msg": HexStr((14, 28))}, functions=["pyModeS.decoder.surv.altitude"],
+@harness(("C07", "C14"), inputs={"msg": HexStr((14, 28))}, functions=["pyModeS.decoder.surv.altitude"],
          body_of=["pyModeS.decoder.surv.altitude"])
 def surv_altitude_body(msg):
     assert outcome(SURV.altitude, msg) == outcome(adsb_spec.surv_altitude, msg), \
